@@ -128,6 +128,20 @@ func (f *fhub) fullDump() map[string]any {
 	}
 	d["publicNamespaces"] = pub
 	d["servedContext"] = served
+	kinds := map[string]any{}
+	for _, n := range f.DatasetNames() {
+		if ds := f.Dsm.GetDataset(n); ds != nil {
+			k := map[string]any{"proxy": ds.IsProxy(), "virtual": ds.IsVirtual()}
+			if ds.ProxyConfig != nil {
+				k["proxyConfig"] = canonJSON(ds.ProxyConfig)
+			}
+			if ds.VirtualDatasetConfig != nil {
+				k["virtualConfig"] = canonJSON(ds.VirtualDatasetConfig)
+			}
+			kinds[n] = k
+		}
+	}
+	d["datasetKinds"] = kinds
 	jl := f.Sched.ListJobs()
 	sort.Slice(jl, func(i, j int) bool { return jl[i].ID < jl[j].ID })
 	d["jobs"] = canonJSON(jl)
